@@ -417,3 +417,77 @@ Definition sub_new (bufsize : Z) : sub :=
 Definition sub_unsub (b : sub) : sub :=
   {| sb_len := sb_len b; sb_cap := sb_cap b; sb_dropped := sb_dropped b;
      sb_delivered := sb_delivered b; sb_unsub := true |}.
+
+(* ------------------------------------------------------------------ registry.go: metric registration *)
+(* Register{Counter,Gauge,Histogram}: validate (pure, not modelled), then
+     RP0: r.metrics.Load(name)          hit  -> type check, schema check, return existing
+     RP1: r.metrics.LoadOrStore(name,c) loaded -> [type assertion] schema check, return existing
+                                        stored -> return c
+   Metrics are never removed from the registry.  A schema is the list of label names; the harness uses
+   l0..l(n-1), so a schema is its length.
+   variant Defective = the code as written: in the loaded branch of LoadOrStore `actual.(ptr Counter)` is an
+   unchecked type assertion, which PANICS when another goroutine registered the same name with a different
+   metric type in between.  variant Repaired = fixes/C20_register_type_race.patch: the loaded branch does the
+   same metricType() check as the Load branch and returns ErrTypeMismatch. *)
+Record ropts := { ro_name : N; ro_kind : kind; ro_nl : nat }.
+Record robj := { rb_kind : kind; rb_nl : nat }.
+Record rshared := { rmap : list (N * nat);     (* Registry.metrics: name -> metric object id *)
+                    robjs : list robj;         (* every metric object ever published *)
+                    rerrs : Z }.               (* registrationErrors *)
+Definition rshared0 : rshared := {| rmap := []; robjs := []; rerrs := 0 |}.
+Inductive rres := RROk (id : nat) | RRErrType | RRErrSchema | RRPanic.
+Inductive rpc := RP0 | RP1 | RPDone (r : rres).
+Record rthread := { rt_pc : rpc; rt_opts : ropts }.
+Definition rthread0 (o : ropts) : rthread := {| rt_pc := RP0; rt_opts := o |}.
+
+Definition kind_eqb (a b : kind) : bool :=
+  match a, b with KCounter, KCounter | KGauge, KGauge | KHist, KHist => true | _, _ => false end.
+Definition rdone (th : rthread) (r : rres) : rthread := {| rt_pc := RPDone r; rt_opts := rt_opts th |}.
+Definition rbump (s : rshared) : rshared := {| rmap := rmap s; robjs := robjs s; rerrs := rerrs s + 1 |}.
+
+Definition rstep (v : variant) (s : rshared) (th : rthread) : rshared * rthread :=
+  let o := rt_opts th in
+  match rt_pc th with
+  | RP0 =>
+      match map_load (rmap s) (ro_name o) with
+      | Some id =>
+          match nth_error (robjs s) id with
+          | Some b => if negb (kind_eqb (rb_kind b) (ro_kind o)) then (rbump s, rdone th RRErrType)
+                      else if negb (Nat.eqb (rb_nl b) (ro_nl o)) then (rbump s, rdone th RRErrSchema)
+                      else (s, rdone th (RROk id))
+          | None => (s, rdone th RRPanic)
+          end
+      | None => (s, {| rt_pc := RP1; rt_opts := o |})
+      end
+  | RP1 =>
+      match map_load (rmap s) (ro_name o) with
+      | Some id =>
+          match nth_error (robjs s) id with
+          | Some b => if negb (kind_eqb (rb_kind b) (ro_kind o))
+                      then match v with
+                           | Defective => (s, rdone th RRPanic)          (* actual.(ptr Counter) on a Gauge *)
+                           | Repaired => (rbump s, rdone th RRErrType)
+                           end
+                      else if negb (Nat.eqb (rb_nl b) (ro_nl o)) then (rbump s, rdone th RRErrSchema)
+                      else (s, rdone th (RROk id))
+          | None => (s, rdone th RRPanic)
+          end
+      | None =>
+          let id := length (robjs s) in
+          ({| rmap := map_store (rmap s) (ro_name o) id;
+              robjs := robjs s ++ [{| rb_kind := ro_kind o; rb_nl := ro_nl o |}];
+              rerrs := rerrs s |}, rdone th (RROk id))
+      end
+  | RPDone _ => (s, th)
+  end.
+
+Record rsys := { rsh : rshared; rths : list rthread }.
+Definition rsys0 (os : list ropts) : rsys := {| rsh := rshared0; rths := map rthread0 os |}.
+Definition rsys_step (v : variant) (x : rsys) (i : nat) : rsys :=
+  match nth_error (rths x) i with
+  | Some th => let (s', th') := rstep v (rsh x) th in {| rsh := s'; rths := upd_nth (rths x) i (fun _ => th') |}
+  | None => x
+  end.
+Definition rrun_sched (v : variant) (x : rsys) (sched : list nat) : rsys := fold_left (rsys_step v) sched x.
+Definition rdone_all (x : rsys) : bool :=
+  forallb (fun th => match rt_pc th with RPDone _ => true | _ => false end) (rths x).
